@@ -520,5 +520,16 @@ func init() {
 			"NewFloat64's value is C15's subject (<= 1 ulp) and only its precision/mode are judged here",
 		},
 		Layers: ctxLayers,
+		Stats: func(tier string) map[string]interface{} {
+			sp := getCtxSpace()
+			var sizes []int
+			total := 0
+			for _, l := range sp.levels {
+				sizes = append(sizes, len(l))
+				total += len(l)
+			}
+			return map[string]interface{}{"states": total, "bfs_distinct_states_per_level": sizes, "operations_in_menu": len(sp.ops),
+				"states_explanation": "states = distinct (context precision, mode, latch, variables) states expanded by every call of the menu; transitions = executions of the real Context method"}
+		},
 	})
 }
